@@ -76,7 +76,7 @@ method and is covered by `gen_no_global_writes`. -/
 def safeCalls : List (List Char × List (List Char)) := [
   ("*regexp.Regexp".toList, ["call MatchString".toList, "call FindAllStringSubmatchIndex".toList]),
   ("*strings.Replacer".toList, ["call Replace".toList]),
-  ("sync.Map".toList, ["call Load".toList, "call LoadOrStore".toList]),
+  ("sync.Map".toList, ["call Load".toList, "call LoadOrStore".toList, "call Delete".toList]),
   ("*ParseTree".toList, ["call Parse".toList])
 ]
 
